@@ -241,24 +241,24 @@ def unparse(node: ast.AST) -> str:
 
 def walk_local(func: ast.AST) -> Iterator[ast.AST]:
     """Walk a function body without descending into nested defs/lambdas/classes."""
-    stack = list(ast.iter_child_nodes(func))
+    stack = list(ast.iter_child_nodes(func))[::-1]
     while stack:
         n = stack.pop()
         yield n
         if isinstance(n, Scope):
             continue
-        stack.extend(ast.iter_child_nodes(n))
+        stack.extend(list(ast.iter_child_nodes(n))[::-1])
 
 
 def walk_body(func: ast.AST) -> Iterator[ast.AST]:
     """Like walk_local but only the body statements (not args/decorators)."""
-    stack: list[ast.AST] = list(getattr(func, "body", []))
+    stack: list[ast.AST] = list(getattr(func, "body", []))[::-1]
     while stack:
         n = stack.pop()
         yield n
         if isinstance(n, Scope):
             continue
-        stack.extend(ast.iter_child_nodes(n))
+        stack.extend(list(ast.iter_child_nodes(n))[::-1])
 
 
 def call_name(call: ast.Call) -> str:
